@@ -91,8 +91,9 @@ def k1_text(text, pathmode):
     while i < n:
         c = text[i]
         if c == '\\':
+            # an escaped separator starts a segment like a bare one
+            at_start = bool(pathmode and text[i + 1:i + 2] == '/')
             i += 2
-            at_start = False
             continue
         if c in '?*+@!' and text[i + 1:i + 2] == '(':
             stack.append(at_start)
@@ -190,7 +191,9 @@ def path_classes(pp, path, flags, impl_accepts, verdict, text):
         gs = (flags.get('globstar') or flags.get('globstarlong')) and any(isinstance(s_, str) for s_ in pp.segs)
         if impl_accepts and verdict == R.MUSTNOT and (gs or flags.get('matchbase') or flags.get('extmatchbase')):
             out.add('K33')
-        if not impl_accepts and verdict == R.MUST and path[:-1].endswith('.'):
+        if path[:-1].endswith('.') and ((not impl_accepts and verdict == R.MUST) or
+                                        (impl_accepts and verdict == R.MUSTNOT and any(A.has_ext(s_, '!') for s_ in pp.segs if not isinstance(s_, str)))):
+            # (inside a negation the wrongly failing inner match turns into a wrong acceptance: `!(*|.)` vs '.\n')
             out.add('K33')
     return out
 
